@@ -275,6 +275,16 @@ static int run_mt(const char *base)
 
 /* ---------------- race mode ---------------- */
 
+/* A loser's die() reaches abort(): hold the process for a moment so that a
+ * thread that did get past the guard can finish its call and set its marker
+ * (otherwise the abort of the first loser hides the winner most of the time). */
+static void on_abort_slow(int sig)
+{
+	(void) sig;
+	struct timespec ts = { 0, 3000000 };
+	nanosleep(&ts, NULL);
+}
+
 static atomic_int race_arrived;
 static int race_m;
 static int race_fini;
@@ -309,6 +319,7 @@ static int run_race(const char *which, int m, long iters, const char *base)
 		if (p == 0) {
 			int fd = open("/dev/null", O_WRONLY);
 			dup2(fd, 2);
+			signal(SIGABRT, on_abort_slow);
 			setenv("OVNI_TRACEDIR", dir, 1);
 			unsetenv("OVNI_TMPDIR");
 			if (race_fini)
